@@ -64,7 +64,7 @@ for name, edits, why in B:
         line = [f"{name}: repo-tests={'pass' if t.returncode == 0 else 'FAIL ' + (t.stdout + t.stderr)[-300:]}"]
         r0 = res.setdefault(name, {"why": why, "checks": {}})
         for c in only:
-            r = sh(f"/verif/run.sh {c} quick", "/verif", extra={"VERIF_REPO": wt, "VERIF_OUT": out})
+            r = sh(os.environ.get("VERIF_RUNSH", "/verif/run.sh") + f" {c} quick", "/verif", extra={"VERIF_REPO": wt, "VERIF_OUT": out})
             silent = r.returncode == 0 and "VIOLATION" not in r.stdout
             r0["checks"][c] = "silent" if silent else "ALARM rc=%d %s" % (r.returncode, " | ".join(l.strip() for l in r.stdout.splitlines() if "signature:" in l)[:300])
             line.append(f"{c}={'ok' if silent else 'ALARM'}")
